@@ -105,6 +105,34 @@ pub fn plan_gather(ctx: &ExecutionContext, sql: &str) -> Result<GatherPlan> {
     let mut required: BTreeMap<String, Option<BTreeSet<String>>> = BTreeMap::new();
     collect_scans(ctx, &plan, &mut required)?;
 
+    // The binder binds EVERY CTE definition of the statement, referenced or
+    // not, but an unreferenced definition is not part of the optimized plan.
+    // Re-binding the statement on the initiator still needs its tables and
+    // columns, so each definition is planned on its own (behind the
+    // definitions before it) and its scans are gathered too. For a referenced
+    // definition this only repeats what the main plan already requires.
+    if let sqlparser::ast::Statement::Query(q) = &stmt {
+        if let Some(with) = &q.with {
+            for (i, cte) in with.cte_tables.iter().enumerate() {
+                let mut cte_sql = String::new();
+                if i > 0 {
+                    cte_sql.push_str(if with.recursive { "WITH RECURSIVE " } else { "WITH " });
+                    cte_sql.push_str(
+                        &with.cte_tables[..i]
+                            .iter()
+                            .map(|c| c.to_string())
+                            .collect::<Vec<_>>()
+                            .join(", "),
+                    );
+                    cte_sql.push(' ');
+                }
+                cte_sql.push_str(&cte.query.to_string());
+                let cte_plan = ctx.optimized_plan(&cte_sql)?;
+                collect_scans(ctx, &cte_plan, &mut required)?;
+            }
+        }
+    }
+
     if required.is_empty() {
         return Err(QueryError::NotImplemented(
             "the statement references no base table, so there is nothing to distribute; \
